@@ -1319,6 +1319,31 @@ impl ArchiveBuilder {
             // Set last offset
             sector_offsets[sector_count] = (data_start + sector_data.len()) as u32;
 
+            // No sector was compressed: the format stores such a file as its plain sectors,
+            // without a sector offset table (readers only expect that table on files flagged
+            // as compressed). Encryption still works per sector with key + sector index.
+            if flags & BlockEntry::FLAG_COMPRESS == 0 {
+                flags &= !BlockEntry::FLAG_SECTOR_CRC;
+                let mut raw = file_data.to_vec();
+                if *encrypt {
+                    flags |= BlockEntry::FLAG_ENCRYPTED;
+                    if *use_fix_key {
+                        flags |= BlockEntry::FLAG_FIX_KEY;
+                    }
+                    let key = self.calculate_file_key(
+                        archive_name,
+                        *file_pos,
+                        file_data.len() as u32,
+                        flags,
+                    );
+                    for (i, sector) in raw.chunks_mut(*sector_size).enumerate() {
+                        self.encrypt_data(sector, key.wrapping_add(i as u32));
+                    }
+                }
+                writer.write_all(&raw)?;
+                return Ok((raw.len(), flags));
+            }
+
             // Log CRC generation if enabled
             if self.generate_crcs {
                 log::debug!(
